@@ -54,7 +54,7 @@ PROPS = {
     },
     "C20": {
         "title": "Strings behave exactly like the character lists they denote",
-        "v_units": ["heap", "pstrcmp", "pstrunify"],
+        "v_units": ["heap", "pstrcmp", "pstrunify"], "sweep": "strlist",
         "ob_filter": {"heap": [r"^(pstr_sentinel_length|Heap_heap_cell_alignment|Heap_pstr_tail_idx|ReservedHeapSection_push_pstr_segment|ReservedHeapSection_push_pstr|scan_slice_to_str_from_start|Heap_compute_pstr_size)::", r"^lemma::(lemma_layout_agreement|lemma_scan_is_seg|lemma_first_zero_bounds|lemma_pstr_cells_nonneg|lemma_pushed_nonneg|lemma_reservation_suffices|lemma_first_zero_is_zero)$"]},
         "k_groups": [],
         "replay": "heap",
